@@ -1149,7 +1149,7 @@ def _is_enclosed_or_line(
             lns = set(lns)
 
             for i in range(ln, end_ln):  # set any line that follows a line continuation `\` as a continuation (not normally set by _multiline_str_* functions)
-                if lines[i].endswith('\\'):  # this is fine whether it is part of string or not
+                if _re_line_end_cont.match(lines[i]):  # not just endswith('\\') because may be comment between implicitly concatenated strings, line continuations inside of strings are already in lns
                     lns.add(i + 1)
 
             if (ret := len(lns) == end_ln - ln) or out_lns is None:
